@@ -433,7 +433,7 @@ Theorem cond_frame hints : forall fuel h self kw h' r,
   cond hints false fuel h self kw = Some (h', r) -> ext h h' /\ fresh_or_nondist h h' r.
 Proof.
   induction fuel as [|k IH]; intros h self kw h' r H; [discriminate|].
-  simpl in H. destruct (get h self) as [o|] eqn:G; [|discriminate].
+  cbn [cond] in H. destruct (get h self) as [o|] eqn:G; [|discriminate].
   destruct (str_eqb (class_of o) "EvaluatedDensity") eqn:Eed.
   { inversion H; subst. split; [apply ext_refl|]. right. split; [eapply get_lt; eassumption|].
     unfold is_dist_at, class_at. rewrite G. apply str_eqb_eq in Eed. rewrite Eed. reflexivity. }
